@@ -231,13 +231,21 @@ func vcRunC14(t *vcTrial, cfg vc14Cfg) {
 		port := lsa.(*syscall.SockaddrInet4).Port
 		addr = fmt.Sprintf("127.0.0.1:%d", port)
 		// saturate the accept queue with held connections
+		held := 0
 		for i := 0; i < 3; i++ {
 			c, err := net.DialTimeout("tcp", addr, 200*time.Millisecond)
 			if err != nil {
 				break
 			}
+			held++
 			cc := c
 			cleanup = append(cleanup, func() { cc.Close() })
+		}
+		if held == 0 {
+			// a starved harness can run out of its 200 ms before the connect is even issued: then
+			// the queue is not known to be full and a later success would prove nothing
+			t.Inconclusive("the accept queue of the dropping listener could not be saturated")
+			return
 		}
 	}
 	// ---- baseline censuses (after the target exists)
@@ -273,6 +281,36 @@ func vcRunC14(t *vcTrial, cfg vc14Cfg) {
 	results := make([]dres, cfg.Dials)
 	var wg sync.WaitGroup
 	var inFlight int32
+	// scheduling canary: the longest a 2 ms sleep took while the dials were in flight. A dial that ran
+	// into its timeout on a machine that could not run a goroutine for a good part of that time says
+	// nothing about netpoll.
+	var maxGap int64
+	stopCanary := make(chan struct{})
+	canaryDone := make(chan struct{})
+	go func() {
+		defer close(canaryDone)
+		for {
+			select {
+			case <-stopCanary:
+				return
+			default:
+			}
+			t0 := time.Now()
+			time.Sleep(2 * time.Millisecond)
+			if g := int64(time.Since(t0)); g > atomic.LoadInt64(&maxGap) {
+				atomic.StoreInt64(&maxGap, g)
+			}
+		}
+	}()
+	stopCanaryOnce := func() {
+		select {
+		case <-stopCanary:
+		default:
+			close(stopCanary)
+			<-canaryDone
+		}
+	}
+	defer stopCanaryOnce()
 	for i := 0; i < cfg.Dials; i++ {
 		wg.Add(1)
 		go func(i int) {
@@ -306,6 +344,9 @@ func vcRunC14(t *vcTrial, cfg vc14Cfg) {
 	}
 	vcSetPlan(nil)
 	vcSetFaults(nil)
+	stopCanaryOnce()
+	starved := time.Duration(atomic.LoadInt64(&maxGap))
+	t.P("longest_2ms_sleep_during_dials", starved.String())
 	nfaults := int(faults.Fired())
 	// ---- judge every dial
 	ok, failed, timeouts, typedNil := 0, 0, 0, 0
@@ -337,7 +378,17 @@ func vcRunC14(t *vcTrial, cfg vc14Cfg) {
 				t.Violate("C14", "timeout_not_reported", "%s failed after %v with %q (%T), which does not report Timeout()", desc, d.elapsed, d.err.Error(), d.err)
 			}
 			if cfg.Target == "accept" && timeout >= time.Second && nfaults == 0 {
-				t.Violate("C14", "spurious_failure", "%s failed with %v although the listener accepts and the timeout is generous", desc, d.err)
+				ne, isNet := d.err.(net.Error)
+				switch {
+				case !(isNet && ne.Timeout()) || d.elapsed < timeout*9/10:
+					// an error other than the timeout, or "timeout" before the time was up: no clock of
+					// the harness is involved
+					t.Violate("C14", "spurious_failure", "%s failed after %v with %v although the listener accepts and the timeout is generous", desc, d.elapsed, d.err)
+				case starved < timeout/10:
+					t.Violate("C14", "spurious_failure", "%s failed with %v although the listener accepts and the timeout is generous (the longest 2 ms sleep beside the dials took %v: the machine was not starved)", desc, d.err, starved)
+				default:
+					t.Inconclusive("%s timed out on a starved machine (a 2 ms sleep took %v)", desc, starved)
+				}
 			}
 		default:
 			ok++
@@ -700,13 +751,19 @@ func vcRunC14Multi(t *vcTrial) {
 				return
 			}
 			cleanup = append(cleanup, func() { syscall.Close(fd) })
+			held := 0
 			for k := 0; k < 3; k++ {
 				c, err := net.DialTimeout("tcp", fmt.Sprintf("%s:%d", ip, port), 200*time.Millisecond)
 				if err != nil {
 					break
 				}
+				held++
 				cc := c
 				cleanup = append(cleanup, func() { cc.Close() })
+			}
+			if held == 0 {
+				t.Inconclusive("the accept queue of the dropping address could not be saturated")
+				return
 			}
 		}
 	}
@@ -728,10 +785,12 @@ func vcRunC14Multi(t *vcTrial) {
 	time.Sleep(2 * time.Millisecond)
 	audit := vcStartAudit()
 	before := vcOpenFDs()
+	stopCanary := vcSchedCanary()
 	t0 := time.Now()
 	dmark := vcTraceMark()
 	c, derr := DialConnection("tcp", fmt.Sprintf("%s:%d", host, port), timeout)
 	el := time.Since(t0)
+	starved := stopCanary()
 	isNil := vcIsNilConn(c)
 	desc := fmt.Sprintf("dial of a name with addresses %v (timeout %v)", roles, timeout)
 	switch {
@@ -759,7 +818,11 @@ func vcRunC14Multi(t *vcTrial) {
 		isTO := isNet && ne.Timeout()
 		switch want {
 		case "ok":
-			t.Violate("C14", "spurious_failure", "%s failed with %v after %v although an accepting address follows only refusing ones", desc, derr, el)
+			if isTO && el >= timeout*9/10 && starved >= timeout/10 {
+				t.Inconclusive("%s timed out on a starved machine (a 2 ms sleep took %v)", desc, starved)
+				break
+			}
+			t.Violate("C14", "spurious_failure", "%s failed with %v after %v although an accepting address follows only refusing ones (the longest 2 ms sleep beside the dial took %v)", desc, derr, el, starved)
 		case "timeout":
 			// only a connect that was actually waiting when the deadline passed (hook DialCtxDone) must
 			// report Timeout(); on a slow machine the deadline can pass while an earlier, refusing
@@ -920,4 +983,33 @@ func vcRunC14PersistentFault(t *vcTrial) {
 	}
 	t.Stat("family_mismatch_dials", 20)
 	t.Nontrivial, t.Sig = true, "persistent-fault"
+}
+
+// vcSchedCanary measures how long 2 ms sleeps really take until the returned function is called; it
+// returns the longest one. A wall-clock timeout observed while the machine could not run a goroutine
+// for a good part of it says nothing about the code under test.
+func vcSchedCanary() (stop func() time.Duration) {
+	var maxGap int64
+	quit := make(chan struct{})
+	done := make(chan struct{})
+	go func() {
+		defer close(done)
+		for {
+			select {
+			case <-quit:
+				return
+			default:
+			}
+			t0 := time.Now()
+			time.Sleep(2 * time.Millisecond)
+			if g := int64(time.Since(t0)); g > atomic.LoadInt64(&maxGap) {
+				atomic.StoreInt64(&maxGap, g)
+			}
+		}
+	}()
+	return func() time.Duration {
+		close(quit)
+		<-done
+		return time.Duration(atomic.LoadInt64(&maxGap))
+	}
 }
